@@ -871,6 +871,107 @@ def unit_reuse(ctx):
                  f"{gr.ravel().tolist()[:6]}", instance=inst)
 
 
+UFUNC_FORMS = ["divmod(A, B)", "divmod(A, S)", "divmod(A, number)", "modf(A)", "frexp(A)", "add(A, B, out=H)",
+               "multiply(A, S, out=H)", "add(A, B, out=A)", "add(A, B, where=True)", "greater(A, B)", "isfinite(A)",
+               "arctan2(A, B)", "maximum(A, number)", "add(A, ndarray)", "subtract(ndarray, A)", "hypot(A, B)"]
+
+
+def unit_ufunc_forms(ctx):
+    """NumPy ufuncs in the forms the operator units do not reach: two outputs (divmod, modf, frexp), an explicit
+    ``out=`` field (also an operand as output), the ``where=`` keyword, comparisons and predicates, a per-cell
+    ndarray as the other input.  What is returned (field, or tuple of fields) must hold NumPy's cell-wise result on the
+    operands' mesh; inputs that are not written to on request stay untouched.  Single-output forms must work; for
+    two-output ufuncs and an operand used as output a refusal is accepted."""
+    meshes = MESHES_Q if ctx.tier == "quick" else MESHES_T
+    meshname = ctx.choose("mesh", [m[0] for m in meshes])
+    k = ctx.choose("nvdim", [3, 1, 2])
+    form = ctx.choose("form", UFUNC_FORMS)
+    da = ctx.choose("dtypeA", ["f", "i"] if ctx.tier == "quick" else ["f", "i", "c"])
+    ndim = len(MESHDEF[meshname][3])
+    labels = ctx.choose("labels", label_variants(k, ndim))
+    mesh, vals = build_leaves(ctx, meshname, k, da, "f", labels, ["A", "B", "S"])
+    A, B, S = (v.v for v in vals)
+    n = tuple(int(i) for i in mesh.n)
+    H = df.Field(mesh, nvdim=k, value=np.full((*n, k), 99.0), dtype=complex if da == "c" else float)
+    P = tracer(n, k, ctx.seed + 5) * 0.25 + 1.0
+    a, b, s = np.array(A.array), np.array(B.array), np.array(S.array)
+    table = {
+        "divmod(A, B)": (lambda: np.divmod(A, B), lambda: np.divmod(a, b), None),
+        "divmod(A, S)": (lambda: np.divmod(A, S), lambda: np.divmod(a, s), None),
+        "divmod(A, number)": (lambda: np.divmod(A, 2.0), lambda: np.divmod(a, 2.0), None),
+        "modf(A)": (lambda: np.modf(A), lambda: np.modf(a), None),
+        "frexp(A)": (lambda: np.frexp(A), lambda: np.frexp(a), None),
+        "add(A, B, out=H)": (lambda: np.add(A, B, out=H), lambda: np.add(a, b), H),
+        "multiply(A, S, out=H)": (lambda: np.multiply(A, S, out=H), lambda: np.multiply(a, s), H),
+        "add(A, B, out=A)": (lambda: np.add(A, B, out=A), lambda: np.add(a, b).astype(a.dtype, casting="same_kind"), A),
+        "add(A, B, where=True)": (lambda: np.add(A, B, where=True), lambda: np.add(a, b), None),
+        "greater(A, B)": (lambda: np.greater(A, B), lambda: np.greater(a, b), None),
+        "isfinite(A)": (lambda: np.isfinite(A), lambda: np.isfinite(a), None),
+        "arctan2(A, B)": (lambda: np.arctan2(A, B), lambda: np.arctan2(a, b), None),
+        "maximum(A, number)": (lambda: np.maximum(A, 1.0), lambda: np.maximum(a, 1.0), None),
+        "add(A, ndarray)": (lambda: np.add(A, P), lambda: np.add(a, P), None),
+        "subtract(ndarray, A)": (lambda: np.subtract(P, A), lambda: np.subtract(P, a), None),
+        "hypot(A, B)": (lambda: np.hypot(A, B), lambda: np.hypot(a, b), None),
+    }
+    lib, refn, target = table[form]
+    with np.errstate(all="ignore"):
+        rr, ref = C.raises(refn)
+    if rr:
+        ctx.note(f"reference-raises:{type(ref).__name__}")
+        raise engine.Skip()
+    mesh_before = C.mesh_snap(mesh)
+    watched = [(nm, f) for nm, f in (("A", A), ("B", B), ("S", S), ("H", H)) if f is not target]
+    before = [(nm, C.field_snap(f)) for nm, f in watched]
+    p_before = P.tobytes()
+    ctx.step(1, form)
+    with np.errstate(all="ignore"):
+        raised, res = C.raises(lib)
+    ctx.check()
+    now = [(nm, C.field_snap(f)) for nm, f in watched]
+    if now != before or P.tobytes() != p_before:
+        who = [x[0] for x, y in zip(now, before) if x != y] + (["ndarray"] if P.tobytes() != p_before else [])
+        ctx.fail("ufunc-forms/operand-modified", f"np.{form}: inputs {who} changed although they are not the output")
+    if C.mesh_snap(mesh) != mesh_before:
+        ctx.fail("ufunc-forms/mesh-modified", f"np.{form}: the mesh changed during evaluation")
+    if raised:
+        # single-output ufuncs over fields, numbers and per-cell arrays are expressions the statement speaks about
+        # (like np.add(a, b) in the operator units); for two-output ufuncs and for an operand used as output it says
+        # nothing definite, there a refusal is accepted
+        if isinstance(ref, tuple) or target is A:
+            ctx.note(f"refused:{form.split('(')[0]}:{type(res).__name__}")
+            return
+        site = engine._lib_site(res.__traceback__) or "outside-library"
+        ctx.fail(f"ufunc-forms/raises-on-valid-expression/{site}/{type(res).__name__}",
+                 f"np.{form} (dtype {da}, nvdim {k}): {type(res).__name__}: {res}")
+        return
+    refs = ref if isinstance(ref, tuple) else (ref,)
+    outs = res if isinstance(res, tuple) else (res,)
+    if len(outs) != len(refs) or not all(isinstance(o, df.Field) for o in outs):
+        ctx.fail("ufunc-forms/result-is-not-one-field-per-numpy-output",
+                 f"np.{form}: returned {[type(o).__name__ for o in outs]} for {len(refs)} NumPy output(s)")
+        return
+    kind = form.split("(")[0] + ("/out" if target is not None else "")
+    for j, (o, r) in enumerate(zip(outs, refs)):
+        ctx.check()
+        ctx.observe(o.array)
+        r = np.asarray(r)
+        if C.mesh_snap(o.mesh) != mesh_before:
+            ctx.fail(f"ufunc-forms/{kind}/result-on-other-mesh", f"np.{form} output {j}: mesh {o.mesh!r}")
+        if o.array.shape != r.shape or o.nvdim != r.shape[-1]:
+            ctx.fail(f"ufunc-forms/{kind}/result-shape", f"np.{form} output {j}: array shape {o.array.shape} nvdim {o.nvdim}, "
+                     f"NumPy gives {r.shape}")
+        elif not C.eq_nan(np.asarray(o.array).astype(complex), r.astype(complex)):
+            ctx.fail(f"ufunc-forms/{kind}/array-differs-from-numpy", f"np.{form} output {j}: got "
+                     f"{np.asarray(o.array).ravel().tolist()[:8]} NumPy {r.ravel().tolist()[:8]}")
+    if target is not None:
+        ctx.check()
+        r = np.asarray(refs[0])
+        if target.array.shape != r.shape or not C.eq_nan(np.asarray(target.array).astype(complex), r.astype(complex)):
+            ctx.fail(f"ufunc-forms/{kind}/output-field-does-not-hold-the-result",
+                     f"np.{form}: the field given as out= holds {np.asarray(target.array).ravel().tolist()[:8]}, NumPy gives "
+                     f"{r.ravel().tolist()[:8]}")
+
+
 
 def units(tier):
     return [
@@ -878,4 +979,5 @@ def units(tier):
         {"name": "programs", "fn": unit_programs, "bound": None},
         {"name": "refuse", "fn": unit_refuse, "bound": None},
         {"name": "reuse", "fn": unit_reuse, "bound": None},
+        {"name": "ufunc_forms", "fn": unit_ufunc_forms, "bound": None},
     ] + ([{"name": "programs3", "fn": unit_programs3, "bound": None}] if tier == "thorough" else [])
